@@ -1,5 +1,6 @@
 import RattrDriver.JsonUtil
 import RattrModel.Cache
+import RattrModel.CacheDeps
 
 /-! Driver ops for C19.
 
@@ -169,5 +170,140 @@ def handleHistory (payload : Json) : R Json := do
       ("missingRow", missingRow)])
     s := s'
   return Json.mkObj [("steps", Json.arr res)]
+
+/-! ### histories over any file, dependencies computed by the model (`RattrModel.CacheDeps`) -/
+
+namespace Deps
+open Rattr.CacheDeps Rattr.Imports
+
+abbrev WD := CacheDeps.W String String String
+abbrev StD := State String String ArgsKey String String
+
+def parseRaw (j : Json) : R RawOpts := do
+  return { follow := (← asNat (← field j "follow")),
+           exclImports := (← asStrList (← field j "F")).map String.toList,
+           exclNames := (← asStrList (← field j "x")).map String.toList }
+
+def keyJson (k : ArgsKey) : Json :=
+  Json.mkObj [("prefix", String.ofList k.litPrefix), ("follow", Json.num k.follow),
+    ("F", jStrList (k.exclImports.map String.ofList)), ("x", jStrList (k.exclNames.map String.ofList))]
+
+/-- op `cache_argkey`: the hashed tuple of one option set. -/
+def handleArgsKey (payload : Json) : R Json := do
+  let pre ← asStr (← field payload "prefix")
+  let raw ← parseRaw (← field payload "opts")
+  return keyJson (argsKey pre.toList raw)
+
+structure ImpRow where
+  origin : String
+  content : String
+  syms : List (Str × Option Str)
+
+def parseStatic (j : Json) : R (Static String String) := do
+  let mods ← (← asArr (← field j "mods")).mapM fun m => do
+    return ({ name := (← asStr (← field m "name")).toList, origin := (← asOptStr (← field m "origin")),
+              readable := (← asBool (← field m "readable")) } : ModInfo String)
+  let stdlib := (← asStrList (← field j "stdlib")).map String.toList
+  let matches_ ← asPairList (← field j "matches")
+  let permanent := (← asStrList (← field j "permanent")).map String.toList
+  let rows ← (← asArr (← field j "imports")).mapM fun r => do
+    let syms ← (← asArr (← field r "syms")).mapM fun s => do
+      match (← asArr s) with
+      | [a, b] => return ((← asStr a).toList, (← asOptStr b).map String.toList)
+      | _ => throw "expected [stmt, target]"
+    return ({ origin := (← asStr (← field r "origin")), content := (← asStr (← field r "content")),
+              syms := syms } : ImpRow)
+  return { mods := mods
+           originStr := String.toList
+           reMatch := fun p t => matches_.contains (String.ofList p, String.ofList t)
+           isStdlib := fun n => stdlib.contains n
+           permanent := permanent
+           builtins := (← asStr (← field j "builtins"))
+           importsOf := fun o c =>
+             ((rows.find? (fun r => r.origin = o && r.content = c)).map (·.syms)).getD []
+           fuel := (← asNat (← field j "fuel")) }
+
+def parseOpG (pre : Str) (j : Json) : R (OpG String String ArgsKey String) := do
+  match (← asStr (← field j "op")) with
+  | "edit" => return .edit (← asStr (← field j "p")) (← asStr (← field j "c"))
+  | "setOptions" =>
+    return .setOptions (argsKey pre (← parseRaw (← field j "o"))) (← asStr (← field j "x"))
+  | "runWithCache" => return .runWithCache
+  | "forceRefresh" => return .forceRefresh
+  | o => throw s!"unknown op {o}"
+
+def diskJsonD : CacheFile String String ArgsKey String → Json
+  | .absent => Json.str "absent"
+  | .malformed => Json.str "malformed"
+  | .crashing e => Json.str ("crashing:" ++ errStr e)
+  | .valid d => Json.mkObj [
+      ("version", d.version), ("args", keyJson d.argumentsHash), ("plugins", d.pluginsHash),
+      ("filepath", d.filepath), ("filehash", d.filehash),
+      ("imports", jPairList d.imports), ("results", d.results)]
+
+def bfsOutcome : Imports.Out Str String → String
+  | .done _ => "done" | .fatal _ => "fatal" | .crash _ => "crash" | .outOfFuel _ => "outOfFuel"
+
+structure RowD where
+  contents : List String
+  opts : ArgsKey
+  other : String
+  fails : Bool
+  fresh : String
+
+/-- op `cache_deps_history` -/
+def handleHistory (payload : Json) : R Json := do
+  let S ← parseStatic (← field payload "static")
+  let pre := (← asStr (← field (← field payload "static") "litPrefix")).toList
+  let ij ← field payload "init"
+  let files ← asPairList (← field ij "files")
+  let D : Dir String String :=
+    { isFile := fun p => (lookupS p files).isSome, emptyHash := (← asStr (← field ij "emptyHash")) }
+  let w0 : WD :=
+    { target := (← asStr (← field ij "target"))
+      contents := fun p => (lookupS p files).getD ""
+      opts := argsKey pre (← parseRaw (← field ij "opts"))
+      other := (← asStr (← field ij "other"))
+      version := (← asStr (← field ij "version"))
+      plugins := (← asStr (← field ij "plugins")) }
+  let keyPaths ← asStrList (← field payload "keyPaths")
+  let rows ← (← asArr (← field payload "analysis")).mapM fun r => do
+    return ({ contents := (← asStrList (← field r "contents")),
+              opts := argsKey pre (← parseRaw (← field r "opts")),
+              other := (← asStr (← field r "other")),
+              fails := (← asBool (← field r "fails")),
+              fresh := (← asStr (← field r "fresh")) } : RowD)
+  let find : WD → Option RowD := fun w => rows.find? (fun r =>
+    r.contents = keyPaths.map w.contents && r.opts = w.opts && r.other = w.other)
+  let A : Analysis String String ArgsKey String String :=
+    depsAnalysis S D (fun w => ((find w).map (·.fresh)).getD "<no-row>")
+      (fun w => ((find w).map (·.fails)).getD false)
+  let disk0 : CacheFile String String ArgsKey String ←
+    match (← asStr (← field payload "disk")) with
+    | "absent" => pure .absent
+    | "malformed" => pure .malformed
+    | "crashing" => pure (.crashing .typeError)
+    | d => throw s!"unknown disk {d}"
+  let ops ← (← asArr (← field payload "ops")).mapM (parseOpG pre)
+  let mut s : StD := { world := w0, disk := disk0 }
+  let mut res : Array Json := #[]
+  for o in ops do
+    let (s', out) := stepG D A s o
+    let extra : List (String × Json) := match o with
+      | .runWithCache | .forceRefresh =>
+        let r := CacheDeps.run S D s.world
+        [("missingRow", Json.bool (find s.world).isNone),
+         ("key", keyJson s.world.opts),
+         ("bfs", Json.str (bfsOutcome r)),
+         ("analysed", jStrList (r.state.analysed.map String.ofList)),
+         ("readSet", jStrList (CacheDeps.readSet S D s.world)),
+         ("recorded", jStrList (CacheDeps.recorded S D s.world)),
+         ("builtinsUnreadable", Json.bool (BuiltinsUnreadable S))]
+      | _ => []
+    res := res.push (Json.mkObj ([("out", Json.str (outStr out)), ("disk", diskJsonD s'.disk)] ++ extra))
+    s := s'
+  return Json.mkObj [("steps", Json.arr res)]
+
+end Deps
 
 end Rattr.Driver.C19
